@@ -20,7 +20,7 @@ ID = "C16"
 LEVEL = "exploration"
 REQUIRED_OUTCOMES = ["digest:ok", "digest:short-read:ok", "digest:variable-length-refused-or-standard", "path:normalised",
                      "path:absolute-refused", "section:loaded", "section:rejected", "section:bare-digest-typed",
-                     "add_checksum:conflict-refused", "add_checksum:kept", "table:each-path-its-own-entry",
+                     "add_checksum:conflict-refused", "add_checksum:kept", "table:each-path-its-own-entry", "add-history:last-call-wins",
                      "table:absolute-path-not-written", "table:absolute-path-not-read"]
 
 MIB = 1024 ** 2
@@ -274,6 +274,37 @@ def eval_table_text(paths):
             "table": {k: list(v) for k, v in ti.checksums.checksums.items()} if r[0] == "ok" else None}
 
 
+# ---- (ii c) histories of computing add() calls on ONE table ---------------------------------------
+
+HIST_OPS = [[root, rel, ctype] for root in ("A", "B") for rel in ("f", "./d/f") for ctype in ("md5", "sha256")]
+
+
+def eval_add_history(hist):
+    """Checksums.add(rel, type, root_dir=<tree>) with the digest computed from the file, several times on one object: two trees
+    hold different files under the same relative paths; after every call the entry of that path is the digest of the file in
+    THAT tree with THAT algorithm (the last call wins), all other entries are untouched."""
+    ti = TI.build(dict(TI.seed_flat(), checksums={}))
+    tmp = tempfile.mkdtemp(prefix="c16-")
+    try:
+        blobs = {}
+        for root in ("A", "B"):
+            os.makedirs(os.path.join(tmp, root, "d"))
+            for rel in ("f", "d/f"):
+                blobs[(root, rel)] = ("%s:%s:" % (root, rel)).encode() * 50
+                with open(os.path.join(tmp, root, rel), "wb") as fh:
+                    fh.write(blobs[(root, rel)])
+        model = {}
+        steps = []
+        for root, rel, ctype in hist:
+            r = call(ti.checksums.add, rel, ctype, None, os.path.join(tmp, root))
+            model[norm(rel)] = [ctype, hashlib.new(ctype, blobs[(root, norm(rel))]).hexdigest()]
+            table = {k: list(v) for k, v in ti.checksums.checksums.items()}
+            steps.append({"result": "ok" if r[0] == "ok" else r[1], "table_is_expected": table == model})
+        return {"steps": steps}
+    finally:
+        shutil.rmtree(tmp, ignore_errors=True)
+
+
 # ---- (iii) add_checksum histories --------------------------------------------------------------
 
 VALUES = ["x" * 64, "y" * 64, "", None]
@@ -323,6 +354,8 @@ def units(tier, seed):
     us.append(("legacy-sections",))
     for first in TABLE_PATHS:
         us.append(("tables", first, 2 if tier == "quick" else 3))
+    for first in HIST_OPS:
+        us.append(("addhist", first, 2 if tier == "quick" else 3))
     n = 2 if tier == "quick" else 3
     names = sorted(SHAPES)
     for first in names:
@@ -397,6 +430,22 @@ def run_unit(unit, acc):
                                   "pre-productmd [checksums] %s loads as %s" % (list(paths), o))
                 else:
                     acc.outcome("section:loaded")
+    elif k == "addhist":
+        _, first, n = unit
+        for m in range(0, n):
+            for rest in itertools.product(HIST_OPS, repeat=m):
+                hist = [first] + [list(x) for x in rest]
+                o = eval_add_history(hist)
+                acc.ev()
+                if len(hist) > 1:
+                    acc.nontriv(("addhist", repr(hist)))
+                bad = [i for i, st in enumerate(o["steps"]) if st != {"result": "ok", "table_is_expected": True}]
+                if bad:
+                    acc.violation("add-history", {"kind": "addhist", "hist": hist}, o,
+                                  "Checksums.add history %s (tree, path, algorithm): after call #%d the table is not {each path: the digest "
+                                  "of the file in the tree and with the algorithm of the LAST call for it} (%s)" % (hist, bad[0], o["steps"][bad[0]]))
+                else:
+                    acc.outcome("add-history:last-call-wins")
     elif k == "tables":
         _, first, n = unit
         others = [p for p in TABLE_PATHS if p != first]
@@ -481,6 +530,8 @@ def run_unit(unit, acc):
 
 def replay(case):
     k = case["kind"]
+    if k == "addhist":
+        return eval_add_history(case["hist"])
     if k == "table":
         return eval_table(case["paths"], case["how"])
     if k == "table-text":
